@@ -74,6 +74,15 @@ def frame_facts(prog, pa):
     return TOP, REC, empty, parity
 
 
+def append_steps(prog, eff, cache, name="_cbor_builder_append"):
+    """paths of the builder's append routine, one automaton step each: when the routine goes round a loop to hand a completed
+    container on (instead of calling itself) the paths are cut at the back edge"""
+    app = prog.fn(name)
+    if app.back_edges():
+        return P.Executor(prog, eff, inline=O.static_callees(prog, eff, name), loop_bound=0, cut_loops=True, generic_rounds=True).run(name)
+    return cache.get(name)
+
+
 def check_automaton(chk, rule, prog, eff, cache, CS):
     """The transition table of the tree builder: what _cbor_builder_append does with a finished item, by the kind of the
     frame on top of the decoding stack (read off the path's facts through the predicate algebra, not off the code's
@@ -106,7 +115,29 @@ def check_automaton(chk, rule, prog, eff, cache, CS):
     ITEM = ("arg", 0)
     seen = {}
     n = 0
-    for k, pa in enumerate(cache.get(app.name, inline_static=True)):
+    # the routine may hand a completed container to ITS parent by calling itself (tail recursion) or by going round a loop
+    # with the container as the new item: one round of the loop is one step of the automaton, so the paths are cut at the
+    # back edge and "continue with item := X" counts as the recursive call append(X)
+    item_phis = set()
+    item_cells = set()
+    if app.back_edges():
+        from ir import Arg
+        loops_ = app.loops()
+        for hid, body in loops_.items():
+            for pi in app.bmap[hid].insts:
+                if pi.op == "phi" and any(isinstance(v, Arg) and v.i == 0 and pb.id not in body for v, pb in pi.incoming):
+                    item_phis.add(pi.id)
+        # ... or, when its address is taken (cbor_decref(&item)), the stack slot that is initialised with the parameter
+        item_cells = set()
+        for st_ in app.all_insts():
+            if st_.op == "store" and isinstance(st_.operands[0], Arg) and st_.operands[0].i == 0:
+                tgt = st_.operands[1]
+                if getattr(tgt, "op", None) == "alloca":
+                    item_cells.add(("alloca", app.name, tgt.id, 0))
+        apaths = P.Executor(prog, eff, inline=O.static_callees(prog, eff, app.name), loop_bound=0, cut_loops=True, generic_rounds=True).run(app.name)
+    else:
+        apaths = cache.get(app.name, inline_static=True)
+    for k, pa in enumerate(apaths):
         st = pa.st
         evs = pa.events
         # the parent: first load of a frame's item
@@ -130,6 +161,12 @@ def check_automaton(chk, rule, prog, eff, cache, CS):
         pops = [e for e in evs if e.kind == "call" and e.callee == "_cbor_stack_pop"]
         rec_calls = [e for e in evs if e.kind == "call" and e.callee == app.name]
         closes = bool(pops) and len(rec_calls) == 1 and TOP is not None and rec_calls[0].args[0] == TOP
+        if isinstance(pa.ret, tuple) and pa.ret and pa.ret[0] == "cut":
+            nxt_items = [tv for pid, tv in pa.ret[2] if pid in item_phis]
+            for cell in item_cells:
+                if st.is_defined(cell, 8):
+                    nxt_items.append(st.load(cell, "i8*", None))
+            closes = bool(pops) and not rec_calls and TOP is not None and TOP in nxt_items
         counter = "none"
         zero = None
         parity = None
@@ -169,6 +206,14 @@ def check_automaton(chk, rule, prog, eff, cache, CS):
             cls = "empty"
             exp = dict(root=True, attach=[], counter="none", closes=False, error=None)
         elif TOP is None:
+            if empty is None and not flag_cf and not flag_se and not root and not attach:
+                # a step that ends without having looked at the stack at all: the item is neither made the root nor attached
+                # nor refused (a round limit, an early return) - whatever the stack holds, the table has an action for it
+                released = any(e.kind == "call" and e.callee in ("cbor_decref", "cbor_intermediate_decref") for e in evs)
+                chk.ob(rule, "path %d: every step consults the stack" % k, False, where, fn=app.name, key="blind:%d" % k,
+                       detail="returns %s without testing the stack: the item is neither stored as the root nor attached nor rejected%s"
+                       % ("after releasing it" if released else "", " (%s)" % [DR.fmt_term(t_) for t_, _tr, _x in pa.facts][:2]),
+                       path=pa.block_lines())
             continue
         else:
             tys_, _iw, _fw, fl = CS.summary(app, pa, TOP)
@@ -223,6 +268,65 @@ def check_automaton(chk, rule, prog, eff, cache, CS):
     chk.ob(rule, "every row of the table is exercised by some path", want <= set(seen), where, fn=app.name, key="auto:rows",
            detail="" if want <= set(seen) else "no path for %s" % sorted(want - set(seen)))
     chk.floor(rule, "paths of _cbor_builder_append classified", n, 10)
+
+
+def wired_builders(prog):
+    load = prog.fn("cbor_load")
+    g = prog.global_for(load, "cbor_load.callbacks")
+    if g is None:
+        raise AnalysisBroken("cbor_load.callbacks not found")
+    return {name: getattr(el, "name", None) for name, el in zip(tables.callback_fields(prog), g["init_val"].elems)}
+
+
+def check_plain_when(chk, rule, prog, cache, wired, CS):
+    """a chunk callback treats its chunk as an ordinary item (handing it to the append routine) only on paths that know that no
+    indefinite string of its kind is open: the stack is empty, or the top frame fails one of the two tests - at every depth"""
+    n = 0
+    stk_ = ("ld", ("arg", 0), prog.field_offset("_cbor_decoder_context", "stack"))
+    size_ = ("ld", stk_, prog.field_offset("_cbor_stack", "size"))
+    for field, (ctor, seth, addc, isa, isindef) in CHUNKS.items():
+        fn = wired.get(field)
+        f = prog.fn(fn)
+        where = "%s:%d" % (f.file, f.line)
+        for k, pa in enumerate(cache.get(fn, inline_static=True)):
+            cs = [e for e in pa.events if e.kind == "call" and e.ckind == "lib" and e.callee.startswith("cbor_new_")]
+            if not cs or not pa.st.known_nonnull(cs[0].res):
+                continue
+            if any(e.kind == "call" and e.callee in ("cbor_bytestring_add_chunk", "cbor_string_add_chunk") for e in pa.events):
+                continue
+            if not pa.calls("_cbor_builder_append"):
+                continue
+            n += 1
+            szs_ = [t for t in list(pa.st.eqc) + list(pa.st.hi) + [f_[0] for f_ in pa.st.facts] if isinstance(t, tuple) and t[0] == "ld" and t[2] == size_[2]
+                    and isinstance(t[1], tuple) and t[1][0] == "ld" and t[1][2] == stk_[2]]
+            emptyk = any(pa.st.eqc.get(t) == 0 or pa.st.hi.get(t, 1) == 0 or pa.st.known_null(t) for t in szs_ + [size_])
+            # ... or that the item in the top frame cannot be an indefinite string of this kind (whichever way the path learned it:
+            # a predicate call, a test of the type field or of the flavour field)
+            Tt_ = prog.enum("cbor_type")["CBOR_TYPE_BYTESTRING" if field == "byte_string" else "CBOR_TYPE_STRING"]
+            top_off_, item_off_ = prog.field_offset("_cbor_stack", "top"), prog.field_offset("_cbor_stack_record", "item")
+
+            def is_top_item(t):
+                def ldof(x, off):
+                    return isinstance(x, tuple) and len(x) >= 3 and x[0] == "ld" and x[2] == off
+                return ldof(t, item_off_) and ldof(t[1], top_off_) and ldof(t[1][1], stk_[2]) and t[1][1][1] == ("arg", 0)
+            tops_ = set()
+
+            def scan(t):
+                if isinstance(t, tuple) and t:
+                    if is_top_item(t):
+                        tops_.add(t)
+                    for x_ in t:
+                        scan(x_)
+            for e_ in pa.events:
+                scan(e_.args)
+            for f_ in pa.st.facts:
+                scan(f_[0])
+            notopen = any(not any(p_[0] == Tt_ and p_[3] == 1 for p_ in CS.pts_all(f, pa, t_)) for t_ in tops_)
+            chk.ob(rule, "%s: a chunk is treated as an ordinary item only when no indefinite %s is open" % (fn, field), emptyk or notopen,
+                   where, fn=fn, key="plainwhen:%s:%d" % (field, k),
+                   detail="" if emptyk or notopen else "the path neither knows the stack to be empty nor the top frame not to be an open indefinite "
+                   "string: at some depth a chunk of an open string is attached to the string's parent instead", path=pa.block_lines() if not (emptyk or notopen) else None)
+    chk.floor(rule, "paths of the chunk callbacks that append the chunk as an ordinary item", n, 2)
 
 
 def check_break(chk, rule, prog, cache, CS, PA, bfname):
@@ -416,6 +520,7 @@ def run(ctx, chk):
                 ok = cnt in ("size", "2*size") and len(app) == 1 and app[0].args[0] == cs[0].res and (pa.st.hi.get(("arg", 1), 1) == 0 or pa.st.eqc.get(("arg", 1)) == 0)
                 chk.ob("C02.counter", "%s: only an empty definite container is appended without a frame" % fn, ok, where, fn=fn, key="empty:%s:%d" % (field, k))
     # chunk callbacks
+    CSj = typestate.CallSites(prog, eff, cache, H, PA)
     for field, (ctor, seth, addc, isa, isindef) in CHUNKS.items():
         fn = wired.get(field)
         f = prog.fn(fn)
@@ -436,15 +541,16 @@ def run(ctx, chk):
             wrong = [e for e in pa.events if e.kind == "call" and e.callee in ("cbor_bytestring_add_chunk", "cbor_string_add_chunk") and e.callee != addc]
             if adds or wrong:
                 top = adds[0].args[0] if adds else None
-                okt = not wrong and adds[0].args[1] == chunk and \
-                    any(e.callee == isa and e.args[0] == top and truth_of(pa, e.res) is True for e in pa.events if e.kind == "call") and \
-                    any(e.callee == isindef and e.args[0] == top and truth_of(pa, e.res) is True for e in pa.events if e.kind == "call")
+                Tt_ = prog.enum("cbor_type")["CBOR_TYPE_BYTESTRING" if field == "byte_string" else "CBOR_TYPE_STRING"]
+                pts_ = CSj.pts_for(f, pa, adds[0], top) if adds else set()
+                okt = not wrong and adds[0].args[1] == chunk and bool(pts_) and all(p_[0] == Tt_ and p_[3] == 1 for p_ in pts_)
                 chk.ob("C02.attach", "%s: chunk joins only an open indefinite %s" % (fn, field), okt, where, fn=fn, key="join:%s:%d" % (field, k),
                        path=pa.block_lines() if not okt else None)
             else:
                 app = pa.calls("_cbor_builder_append")
                 chk.ob("C02.attach", "%s: otherwise the chunk is an ordinary item for its parent" % fn, len(app) == 1 and app[0].args[0] == chunk, where,
                        fn=fn, key="plain:%s:%d" % (field, k))
+    check_plain_when(chk, "C02.attach", prog, cache, wired, CSj)
     # 4. typestate at call sites (builders and append)
     CS = typestate.CallSites(prog, eff, cache, H, PA)
     subjects = sorted({v for v in wired.values() if v}) + ["_cbor_builder_append", "cbor_load"]
@@ -458,7 +564,7 @@ def run(ctx, chk):
     T = prog.enum("cbor_type")
     parents = {T["CBOR_TYPE_ARRAY"], T["CBOR_TYPE_MAP"], T["CBOR_TYPE_TAG"]}
     ndef = 0
-    for k, pa in enumerate(cache.get(app.name)):
+    for k, pa in enumerate(append_steps(prog, eff, cache)):
         tys = None
         for key, vals in pa.st.inset.items():
             tys = set(vals)
@@ -530,6 +636,10 @@ def run(ctx, chk):
                                    "with C05")
     from props.c05 import check_no_silent_drop
     check_no_silent_drop(chk, "C02.no-silent-drop", prog, eff)
+    chk.rule("C02.half-classes", "a half-precision head denotes its IEEE-754 value in the tree: every one of the 65536 two-byte "
+             "patterns reaches the action of its class (shared with C15.half-classes / C08)")
+    from props.c15 import check_half_classes
+    check_half_classes(chk, prog, eff, prefix="C02")
     chk.rule("C02.balance", "every node of the tree cbor_load hands over is owned exactly once: cbor_load, the builder callbacks and "
              "_cbor_builder_append release, hand off or return each reference they hold exactly once on every path - also where an "
              "insertion is refused (shared with C05.nothing-left / C04.client)")
